@@ -207,3 +207,45 @@ def reauth():
                ("quiesce",), ("eof", 1), ("eof", 0), ("quiesce",)]
         out.append(Scenario(st, users=users, name="reauth-" + "-".join(seq)))
     return out
+
+
+def accept_queue():
+    """several connection attempts queued on one listener wake-up, the first accept() failing: the healthy ones must be served"""
+    out = []
+    for ep, tr in (("jet", "raw"), ("uds", "raw")):
+        for errno in (103, 4, 24, 71):          # ECONNABORTED, EINTR, EMFILE, EPROTO
+            for n in (2, 3):
+                st = [("connect", 0, "raw", "local6"), ("msg", 0, obj(method="add", params=obj(path="a", value=1), id=1))]
+                for i in range(n):
+                    st.append(("raw", "+CONNECT %s %s" % (ep, "unix" if ep == "uds" else "local6")))
+                st.append(("raw", "ACCEPTFAIL %s %d" % (ep, errno)))
+                if errno in (24, 71):
+                    # a transient lack of resources may leave the queue for the next wake-up: one more attempt arrives
+                    st.append(("raw", "CONNECT %s %s" % (ep, "unix" if ep == "uds" else "local6")))
+                for i in range(n):
+                    st.append(("msg", 1 + i, obj(method="get", params=obj(), id=10 + i)))
+                st += [("quiesce",)]
+                out.append(Scenario(st, name="accept-queue-%s-%d-%d" % (ep, errno, n)))
+    return out
+
+
+def faulty_caller():
+    """a caller stops reading / its socket fails after it issued requests; the owner's replies must not harm the owner"""
+    out = []
+    for mode in ("err", "eagain", "0,0:err"):
+        for tr in ("raw", "ws"):
+            st = [("connect", 0, tr, "local6"), ("connect", 1, "raw", "remote6"), ("connect", 2, "ws", "remote6"),
+                  ("msg", 0, obj(method="add", params=obj(path="s", value=1), id=1)),
+                  ("msg", 0, obj(method="add", params=obj(path="m"), id=2)),
+                  ("msg", 2, obj(method="fetch", params=obj(id="f"), id=1)),
+                  ("msg", 1, obj(method="set", params=obj(path="s", value=2), id="c1")),
+                  ("msg", 1, obj(method="call", params=obj(path="m", args=[1]), id="c2")),
+                  ("wmode", 1, mode),
+                  ("reply", 0, 0, "result", True),
+                  ("reply", 0, 1, "error", obj(code=1, message="no")),
+                  ("msg", 0, obj(method="change", params=obj(path="s", value=5), id=3)),
+                  ("msg", 2, obj(method="call", params=obj(path="m"), id="other")),
+                  ("reply", 0, 2, "result", 7),
+                  ("quiesce",), ("eof", 1), ("eof", 0), ("eof", 2), ("quiesce",)]
+            out.append(Scenario(st, name="faulty-caller-%s-%s" % (mode.replace(",", "_").replace(":", "_"), tr)))
+    return out
